@@ -64,6 +64,30 @@ impl<'a> Info<'a> {
     }
 }
 
+/// Verification hooks (only with `--cfg fancy_regex_verif`): read-only access to the analysis
+/// results of a node.
+#[cfg(fancy_regex_verif)]
+impl<'a> Info<'a> {
+    /// (minimum size in characters, constant size, hard, first group, group after the last)
+    pub fn verif_facts(&self) -> (usize, bool, bool, usize, usize) {
+        (
+            self.min_size,
+            self.const_size,
+            self.hard,
+            self.start_group,
+            self.end_group,
+        )
+    }
+    /// Analysis results of the sub-expressions.
+    pub fn verif_children(&self) -> &[Info<'a>] {
+        &self.children
+    }
+    /// The analysed expression.
+    pub fn verif_expr(&self) -> &'a Expr {
+        self.expr
+    }
+}
+
 struct Analyzer<'a> {
     backrefs: &'a BitSet,
     group_ix: usize,
